@@ -34,12 +34,22 @@ KINDS = {'a': ('A', 1), 'A': ('A', 2), 'B': ('B', 2), 'C': ('C', 3)}      # 'a' 
 
 def _layout_records(layout, vel=False, renumber=True):
     recs, atomid = [], 1
+    samenum = layout.startswith('=')          # '=...' : consecutive residues share the residue number when their names differ
+    layout = layout.lstrip('=')
+    num = 1
     for ri, k in enumerate(layout):
         name, size = KINDS[k]
         for j in range(size):
-            r = [ri + 1, name, '%s%d' % (name, j + 1), atomid, round(0.1 * atomid, 3), round(-0.2 * ri, 3), round(1.0 + 0.01 * j, 3)]
+            if samenum:
+                if ri > 0 and j == 0 and KINDS[layout[ri - 1]][0] == name:
+                    num += 1          # same name as the previous residue: a new number is the only separator
+                rid = num
+            else:
+                rid = ri + 1
+            r = [rid, name, '%s%d' % (name, j + 1), atomid, round(0.1 * atomid, 3), round(-0.2 * ri, 3), round(1.0 + 0.01 * j, 3)]
             if vel:
-                r += [0.1, 0.2, round(0.001 * atomid, 4)]
+                # one atom in three is exactly at rest (a frozen group): its record still carries velocities
+                r += [0.0, 0.0, 0.0] if atomid % 3 == 0 else [0.1, 0.2, round(0.001 * atomid, 4)]
             recs.append(r)
             atomid += 1
     return recs
@@ -54,6 +64,7 @@ def cases(tier):
     for i in range(0, len(layouts), chunk):
         cs.append({'name': 'layouts/%d-%d' % (i, min(len(layouts), i + chunk) - 1), 'layouts': layouts[i:i + chunk], 'vel': False})
     cs.append({'name': 'layouts/velocities', 'layouts': [l for l in layouts if len(l) <= 2], 'vel': True})
+    cs.append({'name': 'layouts/shared-residue-numbers', 'layouts': ['=' + l for l in layouts if 2 <= len(l) <= 3], 'vel': False})
     if tier == 'thorough':
         cs.append({'name': 'layouts/alternating6', 'layouts': ['ABABAB', 'aAaAaA', 'CCCCCC', 'ABCABC', 'aaAAaa'], 'vel': False})
     return cs
@@ -78,8 +89,9 @@ def run_case(case):
             out.append(t)
         return out
 
-    for layout in case['layouts']:
-        recs = _layout_records(layout, case['vel'])
+    for layout_spec in case['layouts']:
+        recs = _layout_records(layout_spec, case['vel'])
+        layout = layout_spec.lstrip('=')
         text = write_gro_text(recs, comment='layout ' + layout, box=(3.0, 4.0, 5.0))
         # independent expectation from the written records
         expected, start = [], 0
@@ -98,7 +110,7 @@ def run_case(case):
         rec = {'name': '%s: iteration tiles the file into the expected residues; counts, box and title agree' % layout,
                'status': 'unsat' if ok else 'sat', 'secs': 0}
         if not ok:
-            rec['witness'] = {'kind': 'access', 'layout': layout, 'vel': case['vel'], 'cursor': 0, 'op': 'iter'}
+            rec['witness'] = {'kind': 'access', 'layout': layout_spec, 'vel': case['vel'], 'cursor': 0, 'op': 'iter'}
         records.append(rec)
         if sg is None:
             continue
@@ -165,7 +177,7 @@ def run_case(case):
                     'oob': 'index len or -len-1 raises IndexError'}[mode]
             rec = {'name': '%s: %s (%d paths)' % (layout, what, len(cover)), 'status': 'unsat' if bad is None else 'sat', 'secs': 0}
             if bad is not None and bad[0] != 'abort':
-                rec['witness'] = {'kind': 'access', 'layout': layout, 'vel': case['vel'], 'cursor': bad[0], 'op': mode, 'arg': bad[1]}
+                rec['witness'] = {'kind': 'access', 'layout': layout_spec, 'vel': case['vel'], 'cursor': bad[0], 'op': mode, 'arg': bad[1]}
             elif bad is not None:
                 rec['status'] = 'error'; rec['detail'] = bad[1]
             records.append(rec)
@@ -196,8 +208,9 @@ def replay(w):
     import tempfile
     from symx.files import write_gro_text
     from gaddlemaps.components import SystemGro
-    layout = w['layout']
-    recs = _layout_records(layout, w['vel'])
+    layout_spec = w['layout']
+    recs = _layout_records(layout_spec, w['vel'])
+    layout = layout_spec.lstrip('=')
     text = write_gro_text(recs, comment='layout ' + layout, box=(3.0, 4.0, 5.0))
     d = tempfile.mkdtemp(prefix='c12-')
     p = os.path.join(d, 'layout.gro')
@@ -210,9 +223,9 @@ def replay(w):
         expected, start = [], 0
         for k in layout:
             size = KINDS[k][1]
-            expected.append([tuple(r[:4]) for r in recs[start:start + size]])
+            expected.append([tuple(r[:4]) + ((tuple(round(float(x), 6) for x in r[7:10]),) if w['vel'] else ()) for r in recs[start:start + size]])
             start += size
-        ids = lambda res: [(a.resid, a.resname, a.name, a.atomid) for a in res]
+        ids = lambda res: [(a.resid, a.resname, a.name, a.atomid) + ((tuple(round(float(x), 6) for x in a.velocity),) if w['vel'] else ()) + ((None,) if (w['vel'] and a.velocity is None) else ()) for a in res]
         bad = []
         try:
             if [ids(r) for r in sg] != expected or len(sg) != len(layout):
